@@ -99,6 +99,9 @@ pub const FAULTS: &[Fault] = &[
     // untyped nested parent
     Fault { id: "untyped-nested-parent", class: "untyped nested parent", level: Level::Member, hosts: &["named", "parent"], add: &["parent([parent(zq)] zp)"], edit: None, salient: &[&["zp", "type"]], parse_stage: false },
     Fault { id: "untyped-nested-parent-outer", class: "untyped nested parent", level: Level::Member, hosts: &["named", "parent"], add: &["parent([parent([parent(zq)] zr: Zr)] zp)"], edit: None, salient: &[&["zp", "type"]], parse_stage: false },
+    // several untyped nested parents in one instruction: a chain and siblings (one diagnostic each, in declaration order - seed C19-09)
+    Fault { id: "untyped-nested-parent-chain", class: "untyped nested parent", level: Level::Member, hosts: &["named", "parent"], add: &["parent([parent([parent(zq)] zr)] zp)"], edit: None, salient: &[&["zp", "type"]], parse_stage: false },
+    Fault { id: "untyped-nested-parent-siblings", class: "untyped nested parent", level: Level::Member, hosts: &["named", "parent"], add: &["parent([parent(zq)] zp, [parent(zs)] zt, [parent(zu)] zv)"], edit: None, salient: &[&["zp", "type"]], parse_stage: false },
     // repeat conflicts
     Fault { id: "trait-repeat-unterminated", class: "conflicting repeat parameters", level: Level::Type, hosts: ALL, add: &["from_owned(V1| repeat(), vars(k: {1}))", "from_owned(V2| repeat(), vars(k: {2}))"], edit: None, salient: &[&["repeat"]], parse_stage: true },
     Fault { id: "trait-repeat-overrides-vars", class: "conflicting repeat parameters", level: Level::Type, hosts: ALL, add: &["from_ref(V1| repeat(), vars(k: {1}))", "from_ref(V2| vars(k: {2}))"], edit: None, salient: &[&["vars"], &["skip_repeat"]], parse_stage: true },
